@@ -149,10 +149,13 @@ type c05Event struct {
 }
 
 type c05Out struct {
-	Calls   int        `json:"calls"`
-	Results [][]string `json:"results"` // [op][input] -> result ("" = not asked; "!" + ... = inconsistent)
-	Bad     []string   `json:"bad"`
-	Events  []c05Event `json:"events,omitempty"`
+	// digests of the shared tables before the first and after the last call
+	TablesBefore uint64     `json:"tables_before"`
+	TablesAfter  uint64     `json:"tables_after"`
+	Calls        int        `json:"calls"`
+	Results      [][]string `json:"results"` // [op][input] -> result ("" = not asked; "!" + ... = inconsistent)
+	Bad          []string   `json:"bad"`
+	Events       []c05Event `json:"events,omitempty"`
 }
 
 // C05Work is the child side (both in the race build and the plain build).
@@ -177,6 +180,7 @@ func C05Work(cfgPath string) int {
 		calls  int
 	}
 	privs := make([]*priv, cfg.G)
+	tablesBefore, _ := tablesDigest()
 	start := make(chan struct{})
 	var wg sync.WaitGroup
 	t00 := time.Now()
@@ -222,6 +226,8 @@ func C05Work(cfgPath string) int {
 	wg.Wait()
 	// after the join: merge the private buffers
 	var out c05Out
+	out.TablesBefore = tablesBefore
+	out.TablesAfter, _ = tablesDigest()
 	out.Results = [][]string{make([]string, len(inputs)), make([]string, len(inputs))}
 	for g, p := range privs {
 		out.Calls += p.calls
@@ -292,7 +298,7 @@ func c05() *core.Check {
 	ch := &core.Check{
 		ID: "C05",
 		Rule: "race run: a race-instrumented build runs G goroutines (4/16/64) x GOMAXPROCS (2/4/16) hammering a shared input set (1600 inputs; thorough 4000: rare-branch inputs, every prefix of ten rich inputs, near-duplicate families differing in one byte, every hand-written seed) with IsSQLi and IsXSS mixed, random Gosched, and no synchronisation between start barrier and final join; report blocks are counted in the GORACE log and de-duplicated by outermost library frames. " +
-			"history run: permuted / interleaved call histories in fresh child processes with per-goroutine event logs; offline checker: one result per (operation,input) across all histories, goroutines and repetitions, equal to the fresh-process reference (process whose only call is that input). " +
+			"history run: permuted / interleaved call histories in fresh child processes with per-goroutine event logs; offline checker: one result per (operation,input) across all histories, goroutines and repetitions, equal to the fresh-process reference (process whose only call is that input); the shared tables are digested before and after every history / race run (quiescent points) and must be unchanged. " +
 			"Non-trivial = distinct (operation,input) pairs asked under at least two different predecessors or concurrently; evaluations = library calls made.",
 		Assumptions: []string{
 			"the race detector is happens-before based: it reports unordered conflicting accesses it observes, on the paths the input set reaches",
@@ -444,6 +450,10 @@ func c05Run(r *core.Run) {
 			continue
 		}
 		totalCalls += out.Calls
+		if out.TablesBefore != out.TablesAfter {
+			confirmed("shared-table-mutated", core.Case{Kind: "hist", A: int64(h)}, fmt.Sprintf("the digest of the shared tables (keywords, black lists, hex map) changed during history %d (%d calls)", h, out.Calls))
+		}
+		w.Count("table_digest_comparisons", 1)
 		for _, b := range out.Bad {
 			confirmed("history-dependence", core.Case{Kind: "within-process", A: int64(h)}, b)
 		}
@@ -586,6 +596,10 @@ func c05Run(r *core.Run) {
 			confirmed("fatal-under-concurrency", core.Case{Kind: "race", A: int64(ci)}, fmt.Sprintf("race-run child died (G=%d GOMAXPROCS=%d):\n%s", c.g, c.p, lg))
 			continue
 		}
+		if out.TablesBefore != out.TablesAfter {
+			confirmed("shared-table-mutated", core.Case{Kind: "race-run", A: int64(ci)}, fmt.Sprintf("the digest of the shared tables changed during race run %d", ci))
+		}
+		w.Count("table_digest_comparisons", 1)
 		for _, b := range out.Bad {
 			confirmed("history-dependence", core.Case{Kind: "race-run", A: int64(ci)}, b)
 		}
